@@ -116,7 +116,8 @@ func makeProbes() *storeProbes {
 	p3 := mk(4, 13, 1, 4.99996, map[string]int{"net.Dial": 1}) // fuzzy == F1, other exact hash
 	p4 := mk(4, 12, 1, 6.0, map[string]int{"net.Dial": 1})     // hash == T1, entropy out of tolerance
 	p5 := mk(1, 2, 0, 0, nil)                                  // unrelated
-	sp := &storeProbes{P: []*topology.FunctionTopology{p1, p2, p3, p4, p5}, names: []string{"P1", "P2", "P3", "P4", "P5"}}
+	p6 := mk(4, 12, 1, 5.2, map[string]int{"net.Dial": 1})     // hash == T1, entropy 0.2 away: inside a 0.5 tolerance, outside a 0.05 one
+	sp := &storeProbes{P: []*topology.FunctionTopology{p1, p2, p3, p4, p5, p6}, names: []string{"P1", "P2", "P3", "P4", "P5", "P6"}}
 	sp.T1, sp.T2 = detection.GenerateTopologyHash(p1), detection.GenerateTopologyHash(p2)
 	sp.F1, sp.F2 = p1.FuzzyHash, p2.FuzzyHash
 	return sp
